@@ -35,7 +35,7 @@ def runs(draw, tier):
          "saver": draw(st.one_of(st.none(), st.fixed_dictionaries({"period": st.sampled_from([1, 1, 2, 3, 4]), "initial": st.sampled_from([True, True, False]),
                                                                   "metadata": st.sampled_from(["none", "dict", "dict", "callable"]), "only": st.sampled_from([False, False, True])}))),
          "logger": draw(st.one_of(st.none(), st.fixed_dictionaries({"period": st.integers(1, 4), "custom": st.booleans()}))),
-         "second_run": draw(st.booleans()), "log": draw(st.booleans()), "stop_in_batch": draw(st.booleans()),
+         "second_run": draw(st.booleans()), "log": draw(st.booleans()), "stop_in_batch": draw(st.booleans()), "verbose": draw(st.booleans()),
          "inspect_after_clear": draw(st.booleans()), "second_len": draw(st.sampled_from(["same", "fixed3", "same_range", "same_range"]))}
     return c
 
@@ -120,11 +120,11 @@ def check(c):
         for i, p in enumerate(c["metric_periods"]):
             metrics = {"sum": plain_sum, "norm": pnorm, "scaled": scaled} if i == 0 else {"norm": pnorm, "sum": plain_sum}
             log = os.path.join(tmp, f"metrics{i}.csv") if c["log"] else None
-            mes.append((p, metrics, log, MetricEvaluator(p, metrics, log=log, scale=2.5)))
+            mes.append((p, metrics, log, MetricEvaluator(p, metrics, verbose=bool(c.get("verbose")), log=log, scale=2.5)))
         oe = None
         if c["obs_period"] is not None:
             olog = os.path.join(tmp, "obs.csv") if c["log"] else None
-            oe = ObservableEvaluator(c["obs_period"], obs, log=olog, **skw)
+            oe = ObservableEvaluator(c["obs_period"], obs, verbose=bool(c.get("verbose")), log=olog, **skw)
         saver = None
         if c["saver"]:
             sv = c["saver"]
